@@ -7,7 +7,9 @@ from manifest_meta import META, NOT_APPLICABLE, HOOK_COMMITS
 
 ROOT = os.path.dirname(os.path.dirname(os.path.abspath(__file__)))
 checks = []
-for pid in sorted(PROPS):
+LEAN_PROPS = os.path.join(os.path.dirname(os.path.dirname(os.path.abspath(__file__))), "lean", "P2PVerif", "Props")
+READY = [pid for pid in sorted(PROPS) if pid in META and os.path.exists(os.path.join(LEAN_PROPS, pid + ".lean"))]
+for pid in READY:
     m = META[pid]
     checks.append({
         "property_id": pid,
@@ -32,14 +34,14 @@ man = {
     },
     "engines": [{
         "name": "lean4-proof+correspondence", "path": "/verif/check",
-        "serves_properties": sorted(PROPS),
+        "serves_properties": READY,
         "kind_free_text": "Lean 4 theorems about hand-written executable models (lean/P2PVerif), tied to /repo on every run by "
                           "regenerated facts (harness/cmd/extract -> Gen/Facts.lean) and by differential correspondence "
                           "(harness/cmd/corr drives the real code, lean driver replays the same ops through the model)",
     }],
     "checks": checks,
     "notes": "See DESIGN.md. known_findings.json lists recorded findings and the fix: commits made in /repo.",
-    "not_applicable": [{"property_id": k, "reason": v} for k, v in sorted(NOT_APPLICABLE.items()) if k not in PROPS],
+    "not_applicable": [{"property_id": k, "reason": v} for k, v in sorted(NOT_APPLICABLE.items()) if k not in READY],
 }
 with open(os.path.join(ROOT, "MANIFEST.json"), "w") as f:
     json.dump(man, f, indent=1)
